@@ -662,6 +662,7 @@ func (a *act) callDynamic(c *ssa.CallCommon, fnv Val, args []Val, guard string, 
 		t := fx.specTerm(en.X, env, st, st, fx.spec.Pkg)
 		fx.ctx.Assert(Imp(guard, t))
 	}
+	a.allocatedFacts(out, st, guard)
 	fx.eng.assume("callspec assumed for function-typed parameter " + fx.key + ":" + name)
 	return out
 }
